@@ -54,9 +54,10 @@ def pools(clsname):
     from hmf.mass_function import fitting_functions as ff
     from hmf.density_field import filters
     from hmf.cosmology import growth_factor as gf
-    from astropy.cosmology import Planck15, WMAP9, Planck13
+    from astropy.cosmology import Planck15, WMAP9, Planck13, FlatwCDM, LambdaCDM
     P = {
-        "cosmo_model": [Planck15, "WMAP9", Planck13, "Planck15", 3.0],
+        # (astropy classes other than the default flat LCDM too: a constant-w model and a curved one)
+        "cosmo_model": [Planck15, "WMAP9", Planck13, "Planck15", 3.0, FlatwCDM(H0=68.0, Om0=0.3, w0=-0.9, Ob0=0.048, Tcmb0=2.725), LambdaCDM(H0=68.0, Om0=0.3, Ode0=0.65, Ob0=0.048, Tcmb0=2.725)],
         "cosmo_params": [{}, {"Om0": 0.3}, {"H0": 75.0}, {"Om0": 0.25, "Ob0": 0.04}, {"Tcmb0": 2.7}],
     }
     if clsname != "Cosmology":
